@@ -1,7 +1,162 @@
-/- Line-protocol engine for C12 — stub, to be filled in. -/
-import CV.Proto
+/- Line-protocol engine for C12 (Connect CA). See go/overlay/internal/verifharness/c12.
+
+  regexps                                                      the four ParseCertURI patterns the model mirrors
+  new <dc>                                                     fresh CA tables, local datacenter
+  ca <idx> setconfig <cidx> <provider> <cluster> <tag>         CAOpSetConfig
+  ca <idx> setroots <cidx> <roots>                             CAOpSetRoots        roots = id;active,...
+  ca <idx> setprov <id> | delprov <id>                         CAOpSet/DeleteProviderState
+  ca <idx> setboth <rcidx> <roots> <ccidx> <provider> <cluster> <tag>   CAOpSetRootsAndConfig
+  ca <idx> incserial | badop
+  mgr <provider-state id | none>                               the provider the leader installed; answers the active root
+  sign <mesh> <acl> <svcTable> <nodeTable> <uris> <nEmails> <dns> <ips>
+       tables = name;bit,...   uris = scheme;host;path;rawpath;str,...
+-/
+import CV.Ca
 namespace CV.Engine.C12
-open CV
-def step (_ : Unit) (_toks : List String) : Unit × String := ((), "bad-op")
-def engine : Engine := { State := Unit, init := (), step := step }
+open CV CV.Ca
+
+def parseReqRoot (tok : String) : Option ReqRoot :=
+  match tok.splitOn ";" with
+  | [i, a] => do
+      let id ← decB i; let act ← decBool a
+      pure ⟨id, act⟩
+  | _ => none
+
+def parseUrl (tok : String) : Option Url :=
+  match tok.splitOn ";" with
+  | [s, h, p, r, t] => do
+      let s ← decB s; let h ← decB h; let p ← decB p; let r ← decB r; let t ← decB t
+      pure ⟨s, h, p, r, t⟩
+  | _ => none
+
+def parseEntry (tok : String) : Option (Bytes × Bool) :=
+  match tok.splitOn ";" with
+  | [n, b] => do
+      let n ← decB n; let b ← decBool b
+      pure (n, b)
+  | _ => none
+
+def lookup (t : List (Bytes × Bool)) (n : Bytes) : Option Bool := (t.find? (·.1 = n)).map (·.2)
+
+/-- insertion sort by bytewise order of the key (what a memdb string index iterates in) -/
+def insertSorted {α : Type} (key : α → Bytes) (x : α) : List α → List α
+  | [] => [x]
+  | y :: ys => if key x < key y then x :: y :: ys else y :: insertSorted key x ys
+def sortByKey {α : Type} (key : α → Bytes) (l : List α) : List α := l.foldr (insertSorted key) []
+
+def dumpState (s : CaState) : String :=
+  let roots := encList ((sortByKey (·.id) s.roots).map fun r =>
+    s!"{encB r.id};{encBool r.active};{r.create};{r.mod}")
+  let cfg := match s.config with
+    | some c => s!"{encB c.provider};{encB c.cluster};{encB c.tag};{c.create};{c.mod}"
+    | none => "none"
+  let provs := encList ((sortByKey (·.id) s.provs).map fun p => s!"{encB p.id};{p.create};{p.mod}")
+  let ser := match s.serial with
+    | some n => toString n
+    | none => "none"
+  s!"roots={roots} ridx={s.rootsIdx} cfg={cfg} pidx={s.provIdx} provs={provs} ser={ser}"
+
+def resStr : CaRes → String
+  | .nil => "nil"
+  | .bool b => if b then "true" else "false"
+  | .num n => s!"n={n}"
+  | .err .activeCount => "err:active-count"
+  | .err .missingId => "err:missing-id"
+  | .err .casMismatch => "err:cas-mismatch"
+  | .err .invalidOp => "err:invalid-op"
+
+def parseCmd : List String → Option CaCmd
+  | ["setconfig", cidx, p, c, t] => do
+      let cidx ← cidx.toNat?; let p ← decB p; let c ← decB c; let t ← decB t
+      pure (.setConfig ⟨p, c, t, cidx⟩)
+  | ["setroots", cidx, rs] => do
+      let cidx ← cidx.toNat?; let rs ← (decList rs).mapM parseReqRoot
+      pure (.setRoots cidx rs)
+  | ["setprov", id] => do let id ← decB id; pure (.setProv id)
+  | ["delprov", id] => do let id ← decB id; pure (.delProv id)
+  | ["setboth", rc, rs, cc, p, c, t] => do
+      let rc ← rc.toNat?; let rs ← (decList rs).mapM parseReqRoot
+      let cc ← cc.toNat?; let p ← decB p; let c ← decB c; let t ← decB t
+      pure (.setBoth rc rs ⟨p, c, t, cc⟩)
+  | ["incserial"] => some .incSerial
+  | ["badop"] => some .invalid
+  | _ => none
+
+def errStr : Err → String
+  | .uriCount => "uri-count"
+  | .email => "email"
+  | .parse .scheme => "scheme"
+  | .parse .escape => "escape"
+  | .parse .format => "format"
+  | .entOnly => "ent-only"
+  | .kind => "kind"
+  | .acl => "acl"
+  | .dc => "dc"
+  | .trustDomain => "trust-domain"
+  | .noConfig => "no-config"
+  | .noActiveRoot => "no-active-root"
+  | .providerUninit => "provider-uninit"
+
+def idStr : Id → String
+  | .service h ap ns dc svc => s!"service;{encB h};{encB ap};{encB ns};{encB dc};{encB svc}"
+  | .agent h ap dc n => s!"agent;{encB h};{encB ap};{encB dc};{encB n}"
+  | .gateway h ap dc => s!"gateway;{encB h};{encB ap};{encB dc}"
+  | .server h dc => s!"server;{encB h};{encB dc}"
+  | .signing c d => s!"signing;{encB c};{encB d}"
+
+/-- what a verifier reads out of the issued certificate: its URI SANs, each parsed again -/
+def certIds (c : Cert) : String :=
+  encList (c.uris.map fun u =>
+    match parseId u with
+    | .ok id => idStr id
+    | .error _ => "unparseable")
+
+/-- the name the model asks the authorizer about must be in the table the harness sent -/
+def tableCovers (svc node : List (Bytes × Bool)) (csr : Csr) : Bool :=
+  match csr.uris with
+  | [u] =>
+    match parseId u with
+    | .ok id =>
+      match scopeOf id with
+      | some (.service n) => (lookup svc n).isSome
+      | some (.node n) => (lookup node n).isSome
+      | _ => true
+    | .error _ => true
+  | _ => true
+
+def step (s : Sys) (toks : List String) : Sys × String :=
+  match toks with
+  | ["new", dc] =>
+    match decB dc with
+    | some dc => ({ ca := {}, dc := dc, mgrProv := none }, "ok")
+    | none => (s, "bad-op")
+  | "ca" :: idx :: rest =>
+    match idx.toNat?, parseCmd rest with
+    | some idx, some cmd =>
+      let (ca', r) := caStep s.ca idx cmd
+      ({ s with ca := ca' }, s!"{resStr r} | {dumpState ca'}")
+    | _, _ => (s, "bad-op")
+  | ["regexps"] => (s, encList (regexpSources.map encS))
+  | ["mgr", p] =>
+    match (if p == "none" then some none else (decB p).map some) with
+    | some p => ({ s with mgrProv := p }, "active=" ++ encList ((activeRoots s.ca).map (encB ·.id)))
+    | none => (s, "bad-op")
+  | ["sign", mesh, acl, svcT, nodeT, uris, nEmails, dns, ips] =>
+    match decBool mesh, decBool acl, (decList svcT).mapM parseEntry, (decList nodeT).mapM parseEntry,
+          (decList uris).mapM parseUrl, nEmails.toNat?, (decList dns).mapM decB, (decList ips).mapM decB with
+    | some mesh, some acl, some svcT, some nodeT, some uris, some nEmails, some dns, some ips =>
+      let csr : Csr := ⟨uris, nEmails, dns, ips⟩
+      if !tableCovers svcT nodeT csr then (s, "authz-table-miss") else
+      let az : Authz := { serviceWrite := fun n => lookup svcT n == some true,
+                          nodeWrite := fun n => lookup nodeT n == some true,
+                          meshWrite := mesh, aclWrite := acl }
+      match signStep s az csr with
+      | (s', .ok c) =>
+        (s', s!"ok ids={certIds c} uris={encList (c.uris.map (encB ·.str))} serial={c.serial} root={encB c.issuer} dns={encList (c.dns.map encB)} ips={encList (c.ips.map encB)} emails={c.emails} ca={encBool c.isCA} caops=incserial")
+      | (s', .error e) => (s', s!"err {errStr e} caops=-")
+    | _, _, _, _, _, _, _, _ => (s, "bad-op")
+  | _ => (s, "bad-op")
+
+def engine : Engine := { State := Sys, init := {}, step := step }
+
 end CV.Engine.C12
